@@ -240,14 +240,49 @@ def mk_add_self(G, C):
     return check
 
 
+def mk_convert(C, target, p0, l0, tail):
+    """row.to_rna() / to_dna() / to_moltype(): only T <-> U changes, whatever strand / slice the row has.
+    Content and gap layout are concrete (conversion inspects characters); the slice is chosen by the solver."""
+    plen = p0 + tail
+    alen = plen + l0
+
+    def check(a: int, b: int) -> bool:
+        """
+        pre: 0 <= a <= b <= alen
+        post: _
+        """
+        from cogent3.core.alignment import Aligned
+        from cogent3.core.moltype import DNA, RNA
+
+        _ = alen
+        src = DNA if target == "rna" else RNA
+        text = ("ACGTRY" if target == "rna" else "ACGURY")[:plen]
+        gapped = text[:p0] + "-" * l0 + text[p0:]
+        m, s = src.make_seq(seq=gapped, name="s").parse_out_gaps()
+        # same map, in the array dtype the solver run needs (object) / the code's own dtype in plain replay
+        m = L.IndelMap(gap_pos=W.arr([int(x) for x in m.gap_pos], c08._GAP_DT), cum_gap_lengths=W.arr([int(x) for x in m.cum_gap_lengths], c08._GAP_DT), parent_length=m.parent_length)
+        al = Aligned(m, s)[a:b]
+        if C < 0:
+            al = al.rc()
+        before = str(al)
+        r = al.to_rna() if target == "rna" else al.to_dna()
+        r2 = al.to_moltype(target)
+        if not W.reach("end"):
+            return False
+        want = before.replace("T", "U") if target == "rna" else before.replace("U", "T")
+        return str(r) == want and str(r2) == want and len(r) == len(al)
+
+    return check
+
+
 ENCODED = [
-    ("src/cogent3/core/alignment.py", ["Aligned.__init__", "Aligned.__getitem__(slice|int|FeatureMap single span)", "Aligned.rc", "Aligned.__len__", "Aligned.__add__"]),
+    ("src/cogent3/core/alignment.py", ["Aligned.to_rna", "Aligned.to_dna", "Aligned.to_moltype", "Aligned.__init__", "Aligned.__getitem__(slice|int|FeatureMap single span)", "Aligned.rc", "Aligned.__len__", "Aligned.__add__"]),
     ("src/cogent3/core/location.py", ["IndelMap.__getitem__", "IndelMap.get_seq_index", "IndelMap.nucleic_reversed", "IndelMap.__add__"]),
     ("src/cogent3/core/sequence.py", ["Sequence.__getitem__", "NucleicAcidSequence.rc", "SeqView slicing (SliceRecordABC)", "Sequence.__len__"]),
 ]
 BOUNDS = {
     "quick": ["gap runs per row G <= 2; row's sequence view on either strand (step +1 / -1) at any start inside a parent of any length; interval ends and probe column unbounded",
-              "concatenation: row + same row, concrete content <= 6 residues, one gap run"],
+              "concatenation: concrete content <= 6 residues, one gap run at a symbolic position; DNA/RNA conversion: 3 concrete gapped rows, symbolic slice, both strands"],
     "thorough": ["gap runs per row G <= 2 (slice also with negative / None bounds); both strands; all integers unbounded", "concatenation as quick"],
 }
 ASSUMPTIONS = c08.ASSUMPTIONS[:3] + [
@@ -276,6 +311,9 @@ def obligations(tier):
             if G <= 1 or T:
                 obs.append(Ob(f"rc_then_slice/G{G}/C{C}", __name__, "mk_rc_slice", {"G": G, "C": C}, timeout=1200, group="rc"))
         obs.append(Ob(f"add_self/C{C}", __name__, "mk_add_self", {"G": 1, "C": C}, timeout=900, group="concat"))
+        for target in ("rna", "dna"):
+            for p0, l0, tail in ((0, 1, 3), (2, 2, 2), (4, 1, 0)):
+                obs.append(Ob(f"convert/{target}/C{C}/gap{p0}_{l0}_{tail}", __name__, "mk_convert", {"C": C, "target": target, "p0": p0, "l0": l0, "tail": tail}, timeout=900, group="convert"))
     return obs
 
 
